@@ -121,7 +121,11 @@ static void encode_val(unodb::key_encoder& e, const val& v) {
     case F32: e.encode(std::bit_cast<float>(static_cast<std::uint32_t>(v.bits))); break;
     case F64: e.encode(std::bit_cast<double>(v.bits)); break;
     default:
-      e.encode_text(std::span<const std::byte>(reinterpret_cast<const std::byte*>(v.text.data()), v.text.size()));
+      // both public overloads (span of bytes / string_view), chosen by content
+      if ((v.text.size() & 1U) == 0)
+        e.encode_text(std::span<const std::byte>(reinterpret_cast<const std::byte*>(v.text.data()), v.text.size()));
+      else
+        e.encode_text(std::string_view(v.text.data(), v.text.size()));
       break;
   }
 }
